@@ -97,6 +97,20 @@ FA rename(const FA& a, const std::map<long, long>& m);
 bool is_empty(const FA& a);
 bool accepts(const FA& a, const std::vector<std::string>& w);
 
+// ------------------------------------------------------------- independent Timbuk reader (oracles only)
+struct Desc {
+	std::string name;
+	std::set<Sym> ops;
+	std::set<std::string> states, finals;
+	std::set<std::tuple<std::string, std::vector<std::string>, std::string>> trans;   // (symbol, children, parent)
+	bool operator==(const Desc& o) const { return finals == o.finals && trans == o.trans; }
+};
+bool parse_timbuk_ref(const std::string& text, Desc& d, std::string* err = nullptr);
+std::string desc_to_timbuk(const Desc& d, bool parens_on_nullary = false);
+// interpret a description whose state names are [prefix]<number>
+bool desc_to_ta(const Desc& d, const std::string& prefix, TA& out);
+bool desc_to_fa(const Desc& d, const std::string& prefix, FA& out);
+
 // ------------------------------------------------------------- MTBDD functions
 // total function {0,1}^k -> long as a table of 2^k entries; bit i of the
 // index is the value of variable i.
